@@ -1,9 +1,10 @@
-import Driver.KV
+import Driver.C30
 
-/-! Domain C05: the same model as C06 answers every line; a `closeidle` / `restart` line is
-    flagged when the persisted-and-reloaded view of the swamp differs from the view before. -/
+/-! Domain C05: the data requests and the expiry-aware requests are answered as in C06 / C30; a
+    `close` / `closeidle` / `restart` line is flagged when the persisted-and-reloaded view of the
+    swamp differs from the view before. -/
 namespace Driver.C05
 
-def run (args : List String) : IO UInt32 := Driver.KV.run "C05" .c05 args
+def run (args : List String) : IO UInt32 := Driver.C30.runC05 args
 
 end Driver.C05
